@@ -69,6 +69,8 @@ def exInvalidParent : Exn := .dj "crate_invalid_parent"
 def exCrateDeleted : Exn := .dj "crate_deleted"
 def exCrateInconsistent : Exn := .dj "crate_database_inconsistency"
 def exTrackInconsistent : Exn := .dj "track_database_inconsistency"
+def exAlreadyExists : Exn := .dj "crate_already_exists"
+def exTrackDeleted : Exn := .dj "track_deleted"
 
 /-! ### id allocation -/
 def maxId (ids : List Id) : Id := ids.foldl max 0
@@ -244,10 +246,19 @@ def createRootCrate (s : Schema) (db : Db) (name : Name) : Db × Res Out :=
   | .ub u => (db, .ub u)
   | .ok () =>
     transaction db do
+      if (rootCrateByName db name).isSome then Res.throw exAlreadyExists else
       let id := newCrateId s db
       let db1 ← insertCrate s db ⟨id, name, name ++ [semicolon]⟩
       let db2 := { db1 with cpl := db1.cpl ++ [(id, id)] }
       pure (db2, Out.id id)
+
+/-- The `SELECT path FROM Crate WHERE id = ?` callback of create_sub_crate: no row → crate_deleted,
+a second row → crate_database_inconsistency. -/
+def selectOwnPath (db : Db) (c : Id) : Res Name :=
+  match (db.crate.filter (·.id == c)).map (·.path) with
+  | [] => .throw exCrateDeleted
+  | [p] => .ok p
+  | _ => .throw exCrateInconsistent
 
 /-- crate::create_sub_crate. -/
 def createSubCrate (s : Schema) (db : Db) (c : Id) (name : Name) : Db × Res Out :=
@@ -256,16 +267,17 @@ def createSubCrate (s : Schema) (db : Db) (c : Id) (name : Name) : Db × Res Out
   | .ub u => (db, .ub u)
   | .ok () =>
     transaction db do
-      let path ← firstNonEmptyOrThrow ((db.crate.filter (·.id == c)).map (·.path))
+      if (subCrateByName db c name).isSome then Res.throw exAlreadyExists else
+      let path ← selectOwnPath db c
       let sub := newCrateId s db
       let db1 ← insertCrate s db ⟨sub, name, path ++ name ++ [semicolon]⟩
       let db2 := { db1 with cpl := db1.cpl ++ [(sub, c)] }
       let db3 := { db2 with ch := db2.ch ++ hierarchyRowsFor db2.ch sub c }
       pure (db3, Out.id sub)
 
-/-- update_path (anonymous namespace): rewrite the path of `c` and, recursively, of what
-children() returns.  The C++ recursion has no bound; `fuel` = number of parent-list rows + 1
-is exceeded only when the data is cyclic, where the C++ overflows its stack. -/
+/-- update_path (anonymous namespace): rewrite the path of `c` and, recursively, of its
+children().  The C++ recursion has no bound; `fuel` = number of parent-list rows + 1 is
+exceeded only when the data is cyclic, where the C++ overflows its stack. -/
 def updatePath (s : Schema) (fuel : Nat) (db : Db) (c : Id) (parentPath : Name) : Res Db :=
   match fuel with
   | 0 => .ub .nontermination
@@ -275,6 +287,11 @@ def updatePath (s : Schema) (fuel : Nat) (db : Db) (c : Id) (parentPath : Name) 
     let db1 := { db with crate := updateCratePath s db.crate c path }
     (crateChildren db1 c).foldlM (fun acc k => updatePath s fuel acc k path) db1
 
+/-- `if (!is_valid()) throw crate_deleted{id()}`. -/
+def requireValid (db : Db) (c : Id) : Res Unit := do
+  let v ← crateIsValid db c
+  if v then pure () else Res.throw exCrateDeleted
+
 /-- crate::set_name. -/
 def setName (s : Schema) (db : Db) (c : Id) (name : Name) : Db × Res Out :=
   match ensureValidName name with
@@ -282,6 +299,7 @@ def setName (s : Schema) (db : Db) (c : Id) (name : Name) : Db × Res Out :=
   | .ub u => (db, .ub u)
   | .ok () =>
     transaction db do
+      requireValid db c
       -- SELECT path FROM Crate c JOIN CrateParentList cpl ON c.id = cpl.crateParentId
       --   WHERE cpl.crateOriginId = ? AND cpl.crateOriginId <> cpl.crateParentId
       let parentPath ← firstNonEmptyOrThrow
@@ -292,26 +310,60 @@ def setName (s : Schema) (db : Db) (c : Id) (name : Name) : Db × Res Out :=
       let db2 ← (crateChildren db1 c).foldlM (fun acc k => updatePath s (db1.cpl.length + 1) acc k path) db1
       pure (db2, Out.unit)
 
+/-- The nested loops of set_parent: one `DELETE FROM CrateHierarchy WHERE crateId = ? AND crateIdChild = ?`
+per (old ancestor, member of the moved sub-tree). -/
+def deleteHierarchyLinks (s : Schema) (ch : List (Id × Id)) (ancestors members : List Id) : List (Id × Id) :=
+  ancestors.foldl (fun acc a => members.foldl (fun acc m => deletePairs s acc (fun r => r.1 == a && r.2 == m)) acc) ch
+
+/-- One `INSERT INTO CrateHierarchy (crateId, crateIdChild) VALUES (?, ?)` per (new ancestor, member). -/
+def hierarchyLinks (ancestors members : List Id) : List (Id × Id) :=
+  ancestors.flatMap fun a => members.map fun m => (a, m)
+
 /-- crate::set_parent. -/
 def setParent (s : Schema) (db : Db) (c : Id) (parent : Option Id) : Db × Res Out :=
   if parent == some c then (db, .throw exInvalidParent)
   else
     transaction db do
+      requireValid db c
+      match parent with
+      | some q => requireValid db q
+      | none => pure ()
+      match parent with
+      | some q =>
+        if (db.ch.filter (fun r => r.1 == c && r.2 == q)).length > 0 then Res.throw exInvalidParent else pure ()
+      | none => pure ()
       let cpl1 := deletePairs s db.cpl (fun r => r.1 == c)
       let cpl2 := cpl1 ++ [(c, parent.getD c)]
-      let ch1 := deletePairs s db.ch (fun r => r.2 == c)
-      let ch2 := match parent with
-        | some q => ch1 ++ hierarchyRowsFor ch1 c q
-        | none => ch1
-      pure ({ db with cpl := cpl2, ch := ch2 }, Out.unit)
+      let subtree := c :: (db.ch.filter (·.1 == c)).map (·.2)
+      let oldAncestors := (db.ch.filter (·.2 == c)).map (·.1)
+      let ch1 := deleteHierarchyLinks s db.ch oldAncestors subtree
+      let (ch2, parentPath) := match parent with
+        | some q =>
+          let newAncestors := q :: (ch1.filter (·.2 == q)).map (·.1)
+          (ch1 ++ hierarchyLinks newAncestors subtree,
+           (((db.crate.filter (·.id == q)).map (·.path)).getLast?).getD [])
+        | none => (ch1, [])
+      let db1 := { db with cpl := cpl2, ch := ch2 }
+      let db2 ← updatePath s (db1.cpl.length + 1) db1 c parentPath
+      pure (db2, Out.unit)
 
-/-- database::remove_crate. -/
+/-- database::remove_crate: the crate and every descendant, with their dependent rows. -/
 def removeCrate (s : Schema) (db : Db) (c : Id) : Db × Res Out :=
-  ({ db with crate := deleteCrate s db.crate c }, .ok .unit)
+  transaction db do
+    let ids := c :: (db.ch.filter (·.1 == c)).map (·.2)
+    let db' := ids.foldl (fun (acc : Db) id =>
+      let a1 := deleteCtl s acc (fun r => r.1 == id)
+      let a2 := { a1 with ch := deletePairs s a1.ch (fun r => r.1 == id || r.2 == id) }
+      let a3 := { a2 with cpl := deletePairs s a2.cpl (fun r => r.1 == id) }
+      { a3 with crate := deleteCrate s a3.crate id }) db
+    pure (db', Out.unit)
 
 /-- crate::add_track. -/
 def addTrack (s : Schema) (db : Db) (c t : Id) : Db × Res Out :=
   transaction db do
+    requireValid db c
+    -- SELECT COUNT(*) FROM Track WHERE id = ? AND path IS NOT NULL
+    if (db.track.filter (fun r => r.id == t && r.hasPath)).length > 0 then pure () else Res.throw exTrackDeleted
     let db1 := deleteCtl s db (fun r => r.1 == c && r.2 == t)
     pure ({ db1 with ctl := db1.ctl ++ [(c, t)] }, Out.unit)
 
@@ -336,7 +388,9 @@ def createTrack (s : Schema) (db : Db) : Db × Res Out :=
 /-- database::remove_track: `DELETE FROM Track WHERE id = ?`; from 1.17.0 on
 trigger_after_delete_Track (`WHEN OLD.id > COALESCE((SELECT MAX(id) FROM Track), 0)`)
 replaces the NULL-path placeholder rows by a fresh one. -/
-def removeTrack (s : Schema) (db : Db) (t : Id) : Db × Res Out :=
+def removeTrack (s : Schema) (db0 : Db) (t : Id) : Db × Res Out :=
+  -- DELETE FROM CrateTrackList WHERE trackId = ?   (then DELETE FROM Track WHERE id = ?)
+  let db := deleteCtl s db0 (fun r => r.2 == t)
   let olds := db.track.filter (·.id == t)
   let tr1 := db.track.filter (fun r => !(r.id == t))
   if trackAutoinc s then
